@@ -359,6 +359,27 @@ SpecCard(t) ==
     [] op = "for"    -> Prod(SpecCard(t[2]), SpecCard(t[3]))
     [] OTHER -> <<0, 2>>
 
+\* A reference duplicate-freedom inference: "U" = never a duplicate, "D" = no
+\* claim.  TLC checks it sound against Eval as well (MultSound).
+RECURSIVE SpecMult(_)
+SpecMult(t) ==
+  LET op == t[1] IN
+  IF SpecCard(t)[2] <= 1 THEN "U"
+  ELSE
+  CASE op = "lit"  -> IF HasDup(t[2]) THEN "D" ELSE "U"
+    [] op \in {"root", "distinct", "enum"} -> "U"
+    [] op = "ptr"  -> IF PtrInfo[t[3]][2] = "link" THEN "U"
+                      ELSE IF t[3] \in {"n", "m"} THEN SpecMult(t[2]) ELSE "D"
+    [] op \in {"filter", "limit", "limitc", "offset", "isect"} -> SpecMult(t[2])
+    [] op \in {"cast", "rcast"} -> SpecMult(t[3])
+    [] op = "union"  -> IF SpecCard(t[2])[2] = 0 THEN SpecMult(t[3])
+                        ELSE IF SpecCard(t[3])[2] = 0 THEN SpecMult(t[2]) ELSE "D"
+    [] op \in {"coal", "tup"} -> IF SpecMult(t[2]) = "U" /\ SpecMult(t[3]) = "U" THEN "U" ELSE "D"
+    [] op = "if"     -> IF SpecCard(t[2])[2] <= 1 /\ SpecMult(t[3]) = "U" /\ SpecMult(t[4]) = "U"
+                        THEN "U" ELSE "D"
+    [] op = "for"    -> IF t[3] = <<"var">> THEN SpecMult(t[2]) ELSE "D"
+    [] OTHER -> "D"
+
 (* ---------------------------------------------------------- universe ---- *)
 Ints1  == <<"lit", <<I64(1)>>, Sc("int64")>>
 Ints12 == <<"lit", <<I64(1), I64(2)>>, Sc("int64")>>
@@ -514,7 +535,10 @@ Judge ==
           sizes == {Len(b) : b \in all}
           dup   == \E b \in all : HasDup(b)
           ref   == SpecCard(Body)
-      IN /\ PrintT("OUT " \o ToString(<<term, StaticType, sizes, dup, ref>>))
+          refm  == SpecMult(Body)
+      IN /\ PrintT("OUT " \o ToString(<<term, StaticType, sizes, dup, ref, refm>>))
+         \* the reference duplicate-freedom inference is sound on every database
+         /\ (refm = "U" => ~dup)
          \* the reference inference is sound on every database
          /\ \A n \in sizes : n >= ref[1] /\ (ref[2] = 0 => n = 0) /\ (ref[2] = 1 => n <= 1)
          /\ (~WantShow \/ PrintT("SHOW " \o ToString(<<term, Shown>>)))
